@@ -21,7 +21,9 @@ for pid in sys.argv[2:]:
         os.makedirs("/tmp/seedrun", exist_ok=True)
         subprocess.check_call(["git", "-C", "/repo", "worktree", "add", "-q", "--detach", wt, "HEAD"])
         try:
-            if subprocess.call(["git", "-C", wt, "apply", pf]) != 0:
+            if subprocess.call(["git", "-C", wt, "apply", pf], stderr=subprocess.DEVNULL) != 0 and (
+                    subprocess.call(["git", "-C", wt, "apply", "-3", pf], stderr=subprocess.DEVNULL) != 0
+                    or subprocess.run(["git", "-C", wt, "diff", "--name-only", "--diff-filter=U"], capture_output=True, text=True).stdout.strip()):
                 print(f"{pid}/{i} PATCH-DOES-NOT-APPLY", flush=True)
                 continue
             t = subprocess.run(["/venv/bin/python", "-m", "pytest", "-q", "-p", "no:cacheprovider", "-x", "tests", "--ignore=tests/test_external"],
